@@ -71,7 +71,7 @@ func (r *run) setup(over <-chan struct{}) (feed chan int, feedDone chan struct{}
 			}
 		}()
 	}
-	if r.p.Kind == kStall || r.p.SecondKind == kStall {
+	if r.p.hasKind(kStall) {
 		go func() {
 			select {
 			case <-r.stallReached:
